@@ -12,6 +12,10 @@
 //	    55/56, 64/65, 255/256 x payload contents (canonical, leading zeros) x header forms x host position
 //	    x scalar target type; plus chain types carrying zero-padded integers.
 //
+//	(a5) the Stream protocol (streamapi.go): every operation sequence up to length 4/5 on boundary and faulty
+//	    headers against a reference model; (c2) header mutations of chain types with hand-written decoders
+//	    (chainhdr.go).
+//
 // Oracles: an independent canonical-form recogniser (recog.go) + type conformance model decide what must be
 // accepted and what must be rejected; accept => Encode(Decode(s)) == s; Decode(Encode(v)) == v; encodings
 // byte-identical to the reference; no panic; bounded allocation. See DESIGN.md section 4 / C16.
@@ -226,6 +230,16 @@ func rerunCases(rc replayCase, gts func() []*gtyp) []*vcase {
 				evalString(t, s, it, reason, cx, rc.Part)
 			}
 		}
+	case "stream":
+		ins := streamInputs()
+		if rc.Index < len(ins) && hx(ins[rc.Index].b) == rc.Input {
+			evalStreamSeq(ins[rc.Index], rc.Index, parseSeq(rc.Type), cx)
+		}
+	case "chainhdr":
+		cases := chainHeaderCases()
+		if rc.Index < len(cases) {
+			evalChainHeaderCase(cases[rc.Index], rc.Index, cx)
+		}
 	case "values":
 		for _, g := range gts() {
 			if g.name == rc.Type && rc.Index < len(g.vals) {
@@ -322,6 +336,39 @@ func main() {
 		})
 	}
 	phase("scalars")
+	// 1d. the Stream protocol: every operation sequence up to length L on boundary / faulty headers (streamapi.go)
+	{
+		ins := streamInputs()
+		L := 4
+		if thorough {
+			L = 5
+		}
+		per := streamSeqCount(L)
+		total := per * int64(len(ins))
+		const chunk = 512
+		par.For((total+chunk-1)/chunk, 1, nil, func(ci int64) {
+			st := newStats()
+			cx := &ctx{col: viol, st: st}
+			for j := ci * chunk; j < imin64((ci+1)*chunk, total); j++ {
+				i := int(j / per)
+				evalStreamSeq(ins[i], i, streamSeqOf(j%per), cx)
+			}
+			finishChunk(st)
+		})
+		r.Set("stream_inputs", len(ins))
+		r.Set("stream_max_sequence_length", L)
+	}
+	phase("stream")
+	// 1e. header mutations of the chain types with hand-written decoders (chainhdr.go)
+	{
+		cases := chainHeaderCases()
+		par.For(int64(len(cases)), 4, nil, func(i int64) {
+			st := newStats()
+			evalChainHeaderCase(cases[i], int(i), &ctx{col: viol, st: st})
+			finishChunk(st)
+		})
+	}
+	phase("chainhdr")
 	// 2. generated values and 3. chain types: small, always completed
 	runValues(gts())
 	phase("values")
@@ -367,7 +414,12 @@ func main() {
 		"every single-byte class} x header forms {short, long with 1,2,3,8 (thorough 1..8) size bytes, bare byte} x claimed size {n-1, n, n+1} x host {top level, struct field, "+
 		"list element (first/second), optional pointer field, tail slice} x scalar target {*big.Int, big.Int, uint64, uint, uint32, uint16, uint8, bool, []byte, string, "+
 		"[N]byte for N in 0,1,2,8,9,20,32,33,55,56,57,64,256}; and transactions / state accounts / block infos whose big-integer fields are sent with leading zero bytes "+
-		"padded to 2..256 bytes (must be rejected; unpadded control accepted); (b) every value of every generated type (13 leaf kinds x 9 container constructors, "+
+		"padded to 2..256 bytes (must be rejected; unpadded control accepted); (a5) the Stream protocol: EVERY sequence of at most 4 (thorough 5) operations over {Kind, List, ListEnd, Bytes, Uint, Raw, Decode(RawValue), Bool} "+
+		"on a fresh NewStream / NewListStream for ~980 inputs (strings of 0,1,2,9,55,56 bytes and lists of 0,1,4,3,55,56 payload bytes in every header form with <= 3 size bytes and claimed size -1/0/+1, "+
+		"truncated headers, empty input; at top level, as only / middle / nested list element, through NewListStream, and as an element larger than its enclosing list), each step compared with a "+
+		"reference model of the protocol built on the recogniser (Kind() idempotent in kind, size and error; no operation succeeds on a faulty header; EOL exactly at list end; outputs of well-formed values); "+
+		"(c2) chain types with hand-written decoders (Transaction, Log, LogForStorage incl. legacy format, Receipt, ReceiptForStorage, BlockInfo) and StateAccount / Header: every other header form of the outer list, "+
+		"the first inner list and the first non-empty inner string of small (payload < 56 where the type allows) and ordinary instances, alone, inside a list and behind a canonical sibling: accepted => canonical and re-encoding identical; (b) every value of every generated type (13 leaf kinds x 9 container constructors, "+
 		"depth <= 2) with leaf values from boundary sets; (c) full boundary products of transaction / receipt / block-info / log / state-account / header fields. "+
 		"distinct_nontrivial counts distinct (target type or API, accept-or-rejection-class, recogniser verdict or structural shape of the input) triples for (a), "+
 		"distinct (constructor, leaf kind, shape of the encoding) for (b) and distinct field-choice vectors for (c); a case is non-trivial because every one executes the real codec.")
@@ -379,6 +431,8 @@ func main() {
 		"RawValue positions are documented as unvalidated: content of a RawValue (and a single byte < 0x80 wrapped as a string decoded as RawValue / Stream.Raw) is not required to be canonical; counted as info_rawvalue_unvalidated_content_accepted",
 		"unlimited Streams (rlp.Decode on a reader without input limit) are documented as vulnerable to huge size headers and are not exercised with them",
 		"Header: Time has no RLP representation (time.Time has no exported fields); every other field is compared, and the hash comparison is made on whatever Time decoding returns",
+		"Stream protocol model: predicts only what a caller may rely on; no prediction after an operation that failed having consumed content, after ListEnd with a looked-at value, "+
+			"and for an element that overruns its list by at most its own header length (Stream.Kind compares with the list limit taken before the header is read: upstream behaviour, such input can never be decoded to completion; counted as info_stream_element_overrun_within_header_slack)",
 		"allocation bound: runtime.MemStats.TotalAlloc delta of one DecodeBytes + one limited Stream.Decode in a single-threaded section must stay below 1 MiB for inputs of at most 22 bytes")
 	r.Exhaustive(true)
 
@@ -406,6 +460,8 @@ func main() {
 		"some scalar target type never accepted or never rejected a size-class input")
 	r.Require(r.Get("scalar_inputs_canonical") >= 100 && r.Get("scalar_inputs") > 5000 && r.DistinctCount("scalar_size_classes") > 1000, "scalar size-class inputs missing")
 	r.Require(r.Get("noncanonical_int_chain_cases") > 50, "non-canonical integers in chain types not exercised")
+	r.Require(r.Get("stream_sequences") > 500000 && r.Get("stream_ops_predicted") > r.Get("stream_ops")/2, "stream protocol phase did not run or the model predicted less than half of the operations")
+	r.Require(r.Get("chain_header_mutation_cases") > 1000 && r.Get("chain_header_mutation_controls_accepted") >= 60, "chain header mutation phase missing or its canonical controls are not accepted")
 	r.Require(r.Get("alloc_measurements") > 1000, "fewer than 1000 allocation measurements")
 	r.Require(r.Get("values") > 5000, "fewer than 5000 generated values")
 	r.Require(r.Get("reference_encodings_compared") > 5000, "fewer than 5000 encodings compared with the reference")
